@@ -52,6 +52,9 @@ def main(tier):
     for m in extra:
         m["extra"] = True
     mods += extra
+    # small-scope exhaustion: every legal body with <= 2 (thorough: 3) statement nodes, plain and wrapped in a loop with else
+    small = pygen.modules_from_bodies(pygen.enum_function_bodies(3 if thorough else 2))
+    mods += small
     d = lib.fresh_dir("c03")
     cc.write_modules(mods, d)
     stats = dict(functions=0, c03_functions=0, complexity_hist={}, risk_checks=0, dead_decisions=0, extra_functions=0,
